@@ -194,6 +194,7 @@ Proof.
       destruct (IH d c e2 Hv Hdi) as [y2 ->]. cbn [obind]. eexists; reflexivity.
     + destruct e2; try discriminate. destruct (index_of _ (properties p (SCustom n))); [eexists; reflexivity|discriminate].
   - (* SStruct *)
+    apply andb_true_iff in Hd as [Hd _].
     apply andb_true_iff in Hd as [Hd Hds]. apply andb_true_iff in Hd as [Hd0 Hdf].
     destruct d as [|d']; [discriminate|].
     destruct (resolve p t ty) as [sym|]; [|discriminate]. destruct sym; try discriminate.
